@@ -9,14 +9,22 @@ def junk_lines(rng):
             b"hello world", b"*;", b"@;", f[:13].encode(), f[:27].encode(), (f + "0").encode(), (f[:-1]).encode(),
             b"GGGGGGGGGGGGGG", "日本語".encode(), big, b"8D\x00\xff", b"*" + f[:20].encode() + b"\x9f" + b";",
             bytes(rng.randrange(128, 256) for _ in range(40)), b"\r\r\r", b"\t \t"]
+    # records cut off in every line style a feed uses: an opening mark without the closing one, a closing mark alone, a time
+    # stamp without its frame, the cut anywhere in the frame - what a serial bridge or a dropped packet leaves behind
+    g = gen.rand_frame(rng, rng.choice(["df4", "df11", "tc19.1", "df20"]), 0x654321)
+    ts = "%012X" % rng.randrange(1 << 48)
+    for k in sorted(set([1, 2, len(g) // 2, len(g) - 1, len(g) - 3, rng.randrange(1, len(g))])):
+        cand += [("*" + g[:k]).encode(), ("@" + ts + g[:k]).encode(), ("@" + ts[:k % 12 + 1]).encode(), (g[k:] + ";").encode(),
+                 ("*" + g[:k] + "\r").encode(), ("<" + ts + "1A" + g[:k]).encode()]
+    cand += [b"*", b"@", b";", b"*\r", b"**", b"@@", b"*;*", b";*"]
     # a line with 14/28 (or 26/40) hex digits may be a frame by C02: such a line is not junk
     return [j for j in cand if sum(1 for c in j if chr(c) in "0123456789abcdefABCDEF") not in (14, 26, 28, 40)]
 
 class C13(PropBase):
     id = "C13"
     lean_modules = ["SqModel.Props.C13", "SqModel.Proofs.BridgeTable"]
-    rule = ("valid streams of 20-80 frames of every format for 3 aircraft; junk lines (empty, NUL, 0x80-0xFF, invalid UTF-8 "
-            "sequences, lone CR, > 64 KiB, truncated / over-long frames, non-hex) inserted at random positions; the table after "
+    rule = ("valid streams of 20-80 frames of every format for 3 aircraft in mixed line styles (bare, *..;, @time stamp..;, lower case + CR); junk lines (empty, NUL, 0x80-0xFF, invalid UTF-8 "
+            "sequences, lone CR, > 64 KiB, truncated / over-long frames, records cut off in every line style (opening mark without the closing one, bare time stamp ..), non-hex) inserted at random positions; the table after "
             "the real reader thread ran over the junk-laden file against the table after the clean file (impl vs impl), and "
             "against the model; the same with a silent aircraft, a pause longer than delete_after and 11-30 junk / bad-parity lines among 1-25 accepted ones (junk must not advance the sweep); file source (thorough: also the TCP source through the loopback peer of C18). Non-trivial = at "
             "least one junk line of a kind that is not valid UTF-8 precedes a valid line; distinct by stream.")
@@ -26,7 +34,10 @@ class C13(PropBase):
         n = 60 if tier == "quick" else 1200
         for c in range(n):
             addrs = [0x400100, 0x400200, 0xABCDEF]
-            clean = [gen.rand_frame(rng, rng.choice(gen.FORMATS), rng.choice(addrs)).encode() for _ in range(rng.randrange(20, 80))]
+            def styled(f):
+                k = rng.randrange(4)
+                return (f if k == 0 else "*" + f + ";" if k == 1 else "@%012X%s;" % (rng.randrange(1 << 48), f) if k == 2 else f.lower() + "\r").encode()
+            clean = [styled(gen.rand_frame(rng, rng.choice(gen.FORMATS), rng.choice(addrs))) for _ in range(rng.randrange(20, 80))]
             mixed = list(clean)
             jl = junk_lines(rng)
             nonutf_before_valid = False
